@@ -9,10 +9,19 @@ decl:  {"k": "param", "desc"?, "dt"?, "props": {..}, "inherit": bool} | {"k": "v
      | {"k": "cmd", "desc"?, "arg"?, "props": {..}, "inherit": bool} | {"k": "method"}
 dt:    {"t": "float"|"int"|"string"|"bool"|"enum"|"array", "props": {..}, "members": {name: int}?, "child": dt?}
 
+  {"op": "load", "name", "cls", "cfg", "share"?: {key: [section, key']}, "groups"?: {group: [keys]}}   a module section of the
+        configuration is loaded (frappy.config.Mod / Param / Group objects); `share`: ONE Param object used for several modules
+  {"op": "inst", "name", "cls", "from": section}   a module created from a loaded section through SecNode.get_module_instance -
+        again for a second start (restart); an "inst" with "cfg" loads the section under the name of the module and creates it
+  {"op": "mutate", "inst", "par": "controlled_by", "kind": "enum", "member"}   on a module with the mixin HasControlledBy: the real
+        register_input with a recording callback
+
 After EVERY operation every live owner (frappy's own Readable/Writable/Drivable/HasControlledBy, every generated class,
 every instance) is dumped: for_export() of all accessibles in order, internal default/value, the outcome of a boundary
 catalogue through every parameter datatype, module properties, and the id()-partition of the accessible / datatype /
-enum / member-datatype / mutable property-value objects.  Python only runs the code and canonicalises; whether a dump
+enum / member-datatype / mutable property-value objects; for a class also a digest of its whole namespace, for an instance of
+its `vars()` and (mixin HasControlledBy) of which registered callbacks self_controlled()/update_target() call; every loaded module
+section is an owner, too (its entries with the items of their Param objects).  Python only runs the code and canonicalises; whether a dump
 of a non-target owner changed, whether two definition orders agree and whether a fresh instance shows its class's
 description is decided by the Lean monitors (Spec/C09.lean); the Lean heap model (Klass/*) has to predict every dump
 and the sharing partition.
@@ -39,12 +48,23 @@ META = {
                   'inheritance, show the same heap description for every common class - it is viewsOf(env), a function of the class '
                   'bodies along the MRO), order_independent_mprops, class_mprops_faithful, inst_description_function / '
                   'inst_mprops_function (the description of an instance is a function of viewsOf/pureOf of its class and its '
-                  'configuration).  '
+                  'configuration).  Around the heap (FrappyModel/Klass/Session.lean: the loaded configuration as objects - module '
+                  'sections, Param objects shared between sections, Group arguments; module properties computed from the class chain; '
+                  'input-callback tables): config_isolated / config_isolated_run (no operation, in particular no module creation, '
+                  'changes what a loaded section shows), recreate_same (a module created from a section after any admissible run - '
+                  'other modules from this section or from sections sharing Param objects, a restart - shows what one created now '
+                  'shows, accessibles and module properties), module_description_function / module_mprops_function (the description is '
+                  'instViews of viewsOf(env) of the class - resp. instMSpec of its module properties - and of the items the section had '
+                  'WHEN IT WAS LOADED), features_function / later_instances_same_features '
+                  '(features and interface_classes depend on the MRO and the direct bases along it only, whatever was created '
+                  'before), control_isolated / inputs_only_by_own_registration / control_calls_isolated (the table of input callbacks '
+                  'of a module, and what self_controlled() calls, change by registrations with that module only).  '
                   'Tied to the code by a correspondence run (every dump, '
                   'propertyDict, property values, exportProperties and the id()-sharing partition incl. Property objects and member '
                   'datatypes after every operation of generated programs) and by Lean monitors judging every implementation trace '
-                  '(isolation incl. write_<p>/command-call behaviour and module properties, order independence, later instances, writes '
-                  'follow the own datatype).',
+                  '(isolation incl. write_<p>/command-call behaviour, module properties, loaded configuration sections, class and '
+                  'instance namespaces and input-callback behaviour; order independence of classes AND of module creation; later '
+                  'instances incl. a second creation from the same loaded section; writes follow the own datatype).',
     'level_note': 'Trusted: Lean kernel + axioms propext/Classical.choice/Quot.sound; Python C3 linearisation is an input (the real '
                   '__mro__ is passed to the model); validation behaviour is taken to be a function of the exported datainfo '
                   '(monitored on every run); whether an operation fails is taken from the implementation (the model skips failed '
@@ -57,9 +77,13 @@ META = {
         'validation behaviour of a datatype object is a function of its exported datainfo (checked by the monitor valFunctionalB on every run)',
         'class bodies are drawn from a template family (type() with Parameter/Command/Property/bare value/None/method declarations), not arbitrary Python',
         'a LimitsType is told to the model as such (kind "limits", one member); every other datatype object by its exported datainfo',
+        'the items of a Param object and the entries of a Mod are told to the model in the order frappy.config builds them (value last); SECoP_BASE_CLASSES is passed to the driver with every request',
     ],
     'modelled_not_verified': [
-        'module properties set by Module.__init__ from the class chain (implementation, interface_classes, features): dumped and judged, not predicted',
+        'the module property `implementation` (dumped and judged, not predicted; features and interface_classes are predicted by the Session model)',
+        'the session layer (loaded configuration, class-chain properties, input tables) is a separate state next to the object heap: that module creation only READS the Param objects is the transcription of modulebase.py:476-481 / secnode.py:135, checked by the correspondence run, not derived from a model of dict operations',
+        'HasOutputModule.initModule/activate_control (the controller side) is not run: register_input is called on the output module with a recording callback',
+        'the class/instance namespace digest (names and plain-data values, other objects by type name) is judged, not predicted',
         'read_/write_/check_ wrapper generation in __init_subclass__',
         'Limit parameters (<p>_min/_max/_limits); ScaledInteger, BLOBType, StatusType/OrType/NoneOr as parameter datatypes (StatusType appears through frappy.modules only)',
         'outcomes of write_<p>(v) through the generated wrapper and of Command.do(): dumped, judged (isolation, order, writesOwn), not predicted',
@@ -361,7 +385,87 @@ def dump_accessible(aobj, objs, aname, modobj=None):
     return d
 
 
-def dump_owner(owner, is_class):
+_TYPE_TAG = {}
+
+
+def ns_value(v, depth=0):
+    """canonical form of a value found in a class namespace / an instance __dict__: plain data by content (containers
+    recursively), everything else (functions, descriptors, Parameter/Property/datatype objects - dumped elsewhere -, locks,
+    loggers) by the name of its type.  No addresses, no reprs."""
+    if isinstance(v, bool) or v is None or isinstance(v, (str, int)):
+        return v
+    if isinstance(v, float):
+        return canon(v)
+    if isinstance(v, type):
+        return 'class ' + v.__name__
+    if depth > 4:
+        return '...'
+    if isinstance(v, dict):
+        return {'dict': sorted(([k if isinstance(k, str) else '#' + jtext(ns_value(k, depth + 1)), ns_value(x, depth + 1)]
+                                for k, x in v.items()), key=lambda kv: kv[0])}
+    if isinstance(v, (list, tuple)):
+        return {type(v).__name__: [ns_value(x, depth + 1) for x in v]}
+    if isinstance(v, (set, frozenset)):
+        return {'set': sorted(x if isinstance(x, str) else '#' + jtext(ns_value(x, depth + 1)) for x in v)}
+    return _TYPE_TAG.get(type(v)) or _TYPE_TAG.setdefault(type(v), '<' + type(v).__name__ + '>')
+
+
+def ns_digest(namespace):
+    """what a class (its `__dict__`) or an instance (`vars()`) holds besides what is dumped in detail: every name with the
+    canonical form of its value.  State cached on a class by somebody else (an attribute that appears, a class-level
+    container that grows) is state shared by all its instances and inherited by its subclasses."""
+    return sorted([k, ns_value(v)] for k, v in namespace.items() if k not in ('__doc__', '__module__', '__qualname__', 'name'))
+
+
+def control_probe(modobj, calls):
+    """behaviour of a module with input callbacks (mixins.py: HasControlledBy): which inputs are registered with THIS module,
+    and which of the registered callbacks `self_controlled()` / `update_target()` call in every state of `controlled_by`.
+    `calls`: the record the callbacks of this program write to."""
+    if not hasattr(modobj, 'register_input') or 'controlled_by' not in modobj.parameters:
+        return None
+    pobj = modobj.parameters['controlled_by']
+    out = {'inputs': outcome(lambda _: sorted(modobj.inputCallbacks), None)}
+    try:
+        members = sorted((int(v), k) for k, v in pobj.datatype.export_datatype()['members'].items())
+    except Exception as e:
+        return dict(out, members=type(e).__name__)
+    saved_cb, saved_tg = pobj.value, modobj.parameters['target'].value if 'target' in modobj.parameters else None
+    probes = []
+    for val, mname in members:
+        for what in ('self_controlled', 'update_target'):
+            del calls[:]
+            try:
+                pobj.value = pobj.datatype(val)          # the state: who is in control
+                if what == 'self_controlled':
+                    modobj.self_controlled()
+                else:
+                    modobj.update_target('#other', saved_tg)
+                res = 'ok'
+            except Exception as e:
+                res = type(e).__name__
+            probes.append([mname, what, res, sorted(calls)])
+    pobj.value = saved_cb
+    if 'target' in modobj.parameters:
+        modobj.parameters['target'].value = saved_tg
+    del calls[:]
+    out['probes'] = probes
+    return out
+
+
+def dump_section(section):
+    """a loaded module section (frappy.config.Mod without its name): every entry in dict order; a Param object by its items"""
+    out = []
+    for k, v in section.items():
+        if k == 'cls':
+            out.append([k, v.__name__ if isinstance(v, type) else str(v)])
+        elif isinstance(v, dict):
+            out.append([k, [[pk, jtext(canon(pv))] for pk, pv in v.items()]])
+        else:
+            out.append([k, jtext(canon(v))])
+    return out
+
+
+def dump_owner(owner, is_class, calls=None):
     """-> (dump, [(path, object)])"""
     objs = []
     accs = []
@@ -375,10 +479,15 @@ def dump_owner(owner, is_class):
         pd = property_objects(owner)
         mprops = [[pn] + dump_property(po) for pn, po in pd.items()]
         objs += [('@prop/' + pn, po) for pn, po in pd.items()]
-        return {'acc': accs, 'mprops': mprops}, objs
+        return {'acc': accs, 'mprops': mprops, 'ns': ns_digest(owner.__dict__)}, objs
     mprops = sorted([k, jtext(canon(v))] for k, v in owner.exportProperties().items() if k != 'implementation')
     mvals = [[pn, pexport(po, owner.propertyValues.get(pn, po.default))] for pn, po in owner.propertyDict.items()]
-    return {'acc': accs, 'mprops': mprops, 'mvals': mvals}, objs
+    d = {'acc': accs, 'mprops': mprops, 'mvals': mvals}
+    ctrl = control_probe(owner, calls if calls is not None else [])
+    if ctrl is not None:
+        d['ctrl'] = ctrl
+    d['ns'] = ns_digest(vars(owner))        # last: the state the probes above leave behind is the same in every dump
+    return d, objs
 
 
 def partition(all_objs):
@@ -394,6 +503,9 @@ def partition(all_objs):
 # running a program on the real code
 # ----------------------------------------------------------------------------------------
 class _Log:
+    handlers = []
+    parent = property(lambda self: self)
+
     def __getattr__(self, name):
         return lambda *a, **k: None
 
@@ -410,44 +522,88 @@ class _Srv:
     def __init__(self):
         self.dispatcher = _Disp()
         self.secnode = None
+        self.module_cfg = {}
+
+
+HA_BUILTINS = ROOTS + ['Feature']           # frappy's own classes below HasAccessibles (the mixins are outside)
 
 
 def builtin_owners():
     import frappy.modules as M
     import frappy.mixins as X
+    from frappy.modulebase import Feature
     return {'Module': M.Module, 'Readable': M.Readable, 'Writable': M.Writable, 'Drivable': M.Drivable,
-            'HasControlledBy': X.HasControlledBy, 'HasOutputModule': X.HasOutputModule}
+            'Feature': Feature, 'HasControlledBy': X.HasControlledBy, 'HasOutputModule': X.HasOutputModule}
 
 
-def snapshot(classes, insts):
+def snapshot(ex):
+    """dumps of every live owner: frappy's own classes, every generated class, every instance, every loaded module
+    section of the configuration; and the id()-partition of their objects"""
     dumps, objs = {}, []
-    for name, c in list(builtin_owners().items()) + list(classes.items()):
+    for name, c in list(builtin_owners().items()) + list(ex.classes.items()):
         try:
             d, o = dump_owner(c, True)
         except Exception as e:
             d, o = {'dump_error': type(e).__name__}, []
         dumps['cls:' + name] = d
         objs += [('cls:' + name, p, x) for p, x in o]
-    for name, i in insts.items():
+    for name, i in ex.insts.items():
         try:
-            d, o = dump_owner(i, False)
+            d, o = dump_owner(i, False, ex.calls)
         except Exception as e:
             d, o = {'dump_error': type(e).__name__}, []
         dumps['inst:' + name] = d
         objs += [('inst:' + name, p, x) for p, x in o]
+    for name, sec in ex.cfgs.items():
+        dumps['cfg:' + name] = {'cfg': dump_section(sec)}
     return dumps, partition(objs)
 
 
-def run_op(op, classes, insts):
+def load_section(ex, name, clsname, cfg, share, groups=None):
+    """what loading a configuration file does for one module: `Mod(name, cls, description, **entries)` with `Param(...)`
+    objects (frappy/config.py:52-86, 113-120).  `share` = {key: [section, key']}: the Param object bound to a name once
+    in the file and used for several modules is ONE object in all their sections.  `groups` = {group: [keys]}: `Group(...)`
+    arguments (the named parameters of this module get the property `group`)."""
+    import copy
+    from frappy.config import Mod, Param, Group
+    cfg = copy.deepcopy(cfg)
+    desc = cfg.pop('description', 'module')
+    entries = {k: Param(**v) if isinstance(v, dict) else v for k, v in cfg.items() if v is not None}
+    for k, (sec, key) in (share or {}).items():
+        entries[k] = ex.cfgs[sec][key]
+    for g, members in (groups or {}).items():
+        entries[g] = Group(*members)
+    mod = Mod(name, ex.classes[clsname], desc, **entries)
+    mod.pop('name')       # frappy.config.Config.__init__
+    return mod
+
+
+def create_module(ex, section):
+    """what `SecNode.create_modules` does for one module of the loaded configuration (frappy/secnode.py:115-181, the way
+    Server._processCfg gets there): a new node is given the loaded configuration and creates the module named `section`
+    -> (module object | None, outcome)"""
+    from frappy.secnode import SecNode
+    from frappy.lib import generalConfig
+    generalConfig.testinit()
+    srv = _Srv()
+    srv.module_cfg = ex.cfgs
+    node = srv.secnode = SecNode('node', _Log(), {}, srv)
+    obj = node.get_module_instance(section)
+    if obj is not None:
+        return obj, 'ok'
+    return None, 'error:ConfigError' if any(e.startswith('error creating module') for e in node.errors) else 'error:Exception'
+
+
+def run_op(op, ex):
     """-> (outcome, target owner key or None, extra)"""
     import frappy.modules as M
-    from frappy.lib import generalConfig
-    roots = {'Module': M.Module, 'Readable': M.Readable, 'Writable': M.Writable, 'Drivable': M.Drivable}
+    classes, insts = ex.classes, ex.insts
+    builtins = builtin_owners()
     kind = op['op']
     extra = {}
     try:
         if kind == 'class':
-            bases = tuple(classes[b] if b in classes else roots[b] for b in op['bases'])
+            bases = tuple(classes[b] if b in classes else builtins[b] for b in op['bases'])
             ns = {}
             for aname, decl in op['decls']:
                 ns[aname] = mk_decl(decl)
@@ -457,14 +613,23 @@ def run_op(op, classes, insts):
             else:
                 cls = type(op['name'], bases, ns)
             classes[op['name']] = cls
-            known = {v: k for k, v in list(roots.items()) + list(classes.items())}
+            known = {v: k for k, v in list(builtins.items()) + list(classes.items())}
             extra['mro'] = [known[c] for c in cls.__mro__ if c in known]
             return 'ok', 'cls:' + op['name'], extra
+        if kind == 'load':
+            # a module section of the configuration is loaded (no module is created)
+            ex.cfgs[op['name']] = load_section(ex, op['name'], op['cls'], op['cfg'], op.get('share'), op.get('groups'))
+            return 'ok', 'cfg:' + op['name'], extra
         if kind == 'inst':
-            cfg = {k: dict(v) if isinstance(v, dict) else v for k, v in op['cfg'].items()}
-            cfg.setdefault('description', 'module')
-            generalConfig.testinit()
-            obj = classes[op['cls']](op['name'], _Log(), cfg, _Srv())
+            section = op.get('from')
+            if section is None:       # the section is loaded with this operation, under the name of the module
+                section = op['name']
+                ex.cfgs[section] = load_section(ex, section, op['cls'], op['cfg'], op.get('share'), op.get('groups'))
+            elif section not in ex.cfgs:
+                return 'skipped', None, extra
+            obj, outcome_ = create_module(ex, section)
+            if obj is None:
+                return outcome_, _target_of(op), extra
             insts[op['name']] = obj
             return 'ok', 'inst:' + op['name'], extra
         if kind == 'mutate':
@@ -476,6 +641,11 @@ def run_op(op, classes, insts):
                 obj.accessibles[op['par']].setProperty(op['key'], op['val'])
             elif op['kind'] == 'write':
                 getattr(obj, 'write_' + op['par'])(op['val'])
+            elif op['kind'] == 'enum' and op['par'] == 'controlled_by' and hasattr(obj, 'register_input'):
+                # the real thing (what <controller module>.initModule does): the callback records who calls it
+                tag = [op['inst'], op['member']]
+                extra['registered'] = True
+                obj.register_input(op['member'], lambda source=None, _tag=tag: ex.calls.append(_tag + [source]))
             elif op['kind'] == 'enum':
                 from frappy.mixins import HasControlledBy
                 # the body of HasControlledBy.register_input, for any enum parameter of the instance
@@ -483,7 +653,7 @@ def run_op(op, classes, insts):
             return 'ok', 'inst:' + op['inst'], extra
         raise ValueError(kind)
     except (KeyError, IndexError) as e:
-        if kind != 'class' and (op.get('cls') not in classes if kind == 'inst' else op.get('inst') not in insts):
+        if kind in ('inst', 'load') and op.get('cls') not in classes or kind == 'mutate' and op.get('inst') not in insts:
             return 'skipped', None, extra        # refers to a class/instance whose creation failed
         return 'error:' + type(e).__name__, _target_of(op), extra
     except Exception as e:
@@ -493,6 +663,8 @@ def run_op(op, classes, insts):
 def _target_of(op):
     if op['op'] == 'class':
         return 'cls:' + op['name']
+    if op['op'] == 'load':
+        return 'cfg:' + op['name']
     if op['op'] == 'inst':
         return 'inst:' + op['name']
     return 'inst:' + op['inst']
@@ -540,14 +712,16 @@ class Exec:
 
     def __init__(self):
         self.classes, self.insts = {}, {}
+        self.cfgs = {}           # the loaded configuration: section name -> module section (what srv.module_cfg holds)
+        self.calls = []          # what the input callbacks registered by this program record when they are called
         self.anc = {}            # generated class -> set of all its ancestors (names), filled from the real __mro__
         self.steps = []
-        dumps, part = snapshot(self.classes, self.insts)
+        dumps, part = snapshot(self)
         self.init = {'dumps': dumps, 'part': part}
 
     def apply(self, op):
-        outcome, target, extra = run_op(op, self.classes, self.insts)
-        after, part = snapshot(self.classes, self.insts)
+        outcome, target, extra = run_op(op, self)
+        after, part = snapshot(self)
         st = {'op': op, 'outcome': outcome, 'target': target, 'after': after, 'part': part}
         st.update(extra)
         if op['op'] == 'class' and outcome == 'ok':
@@ -578,6 +752,10 @@ ROOT_KINDS = {
     'Writable': {'value': 'float', 'status': 'tuple', 'pollinterval': 'float', 'target': 'float'},
     'Drivable': {'value': 'float', 'status': 'tuple', 'pollinterval': 'float', 'target': 'float', 'stop': 'cmd'},
 }
+
+
+BUILTIN_MIXINS = ['HasControlledBy', 'HasOutputModule']
+BUILTIN_MIXIN_KINDS = {'Feature': {}, 'HasControlledBy': {'controlled_by': 'enum'}, 'HasOutputModule': {'control_active': 'bool'}}
 
 
 def gen_member(rng, depth):
@@ -831,9 +1009,12 @@ def gen_program(rng, big):
     kinds = {r: dict(v) for r, v in ROOT_KINDS.items()}      # class name -> {aname: kind} (generator's estimate)
     mkinds = {r: dict(MPROP_ROOT) for r in ROOT_KINDS}       # class name -> {module property name: kind}
     mvalued = {r: set() for r in ROOT_KINDS}                 # class name -> module properties carrying a value in its chain
+    kinds.update({b: dict(v) for b, v in BUILTIN_MIXIN_KINDS.items()})
     mixins = []
+    features = []            # classes below frappy's Feature: a direct subclass is reported in the module property 'features'
     modules = []
     insts = {}
+    sections = {}            # loaded module sections: name -> (class, {key: kind of the parameter it was written for})
     ops = []
     nops = rng.randint(3, 14 if big else 8)
     ncls = 0
@@ -842,25 +1023,36 @@ def gen_program(rng, big):
         if r < 0.45 or not modules:
             ncls += 1
             name = 'K%d' % ncls
-            is_mixin = rng.random() < 0.22
+            is_mixin = rng.random() < 0.2
+            is_feature = not is_mixin and rng.random() < 0.2
             if is_mixin:
                 bases = [rng.choice(mixins)] if mixins and rng.random() < 0.2 else []
+            elif is_feature:
+                bases = [rng.choice(features)] if features and rng.random() < 0.25 else ['Feature']
             else:
                 nb = rng.choice([1, 1, 1, 2, 2, 3])
                 first = rng.choice(modules) if modules and rng.random() < 0.75 else rng.choice(ROOTS)
                 bases = [first]
                 for _ in range(nb - 1):
                     wild = rng.random() < 0.05
-                    cands = [c for c in mixins + mixins + modules + ROOTS
+                    cands = [c for c in mixins + mixins + features + features + BUILTIN_MIXINS + modules + ROOTS
                              if wild and c not in bases or not any(related(ex, c, b) for b in bases)]
-                    cands = [c for c in cands if c not in ROOTS or wild or all(b in mixins for b in bases)]
+                    cands = [c for c in cands if c not in ROOTS or wild or all(b in mixins + features + BUILTIN_MIXINS for b in bases)]
+                    # the control mixins declare `target = Parameter()`: somebody else has to bring its datatype
+                    has_target = any(kinds.get(b, {}).get('target') for b in bases)
+                    cands = [c for c in cands if c not in BUILTIN_MIXINS or has_target or rng.random() < 0.1]
                     if not cands:
                         break
                     c = rng.choice(cands)
-                    if c in mixins and rng.random() < 0.75:
+                    if (c in mixins or c in features or c in BUILTIN_MIXINS) and rng.random() < 0.75:
                         bases.insert(0, c)
                     else:
                         bases.append(c)
+            if not is_mixin and not is_feature and features and rng.random() < 0.5:
+                # a module class using a feature (usually added by a subclass of a concrete module class)
+                f = rng.choice(features)
+                if not any(related(ex, f, b) for b in bases):
+                    bases.insert(0, f)
             est = {}
             for b in reversed(bases):
                 est.update(kinds.get(b, {}))
@@ -891,7 +1083,7 @@ def gen_program(rng, big):
             for b in reversed(bases):
                 mest.update(mkinds.get(b, {}))
                 mval |= mvalued.get(b, set())
-            for _ in range(rng.choice([0, 0, 0, 1, 1, 2])):
+            for _ in range(0 if is_feature else rng.choice([0, 0, 0, 1, 1, 2])):
                 r = rng.random()
                 if mval and r < 0.45:        # a second level: over a property that carries a value already
                     pn = rng.choice(sorted(mval))
@@ -914,12 +1106,21 @@ def gen_program(rng, big):
                 kinds[name] = est
                 mkinds[name] = mest
                 mvalued[name] = mval
-                (mixins if is_mixin else modules).append(name)
+                (mixins if is_mixin else features if is_feature else modules).append(name)
         elif r < 0.72 or not insts:
+            name = 'i%d' % (len(ex.steps) + 1)
+            if sections and rng.random() < 0.18:
+                # a second module from a section of the loaded configuration (what a restart does: Server._processCfg runs
+                # again on the same srv.module_cfg)
+                sec = rng.choice(sorted(sections))
+                op = {'op': 'inst', 'name': name, 'cls': sections[sec][0], 'from': sec}
+                ops.append(op)
+                if ex.apply(op)['outcome'] == 'ok':
+                    insts[name] = sections[sec][0]
+                continue
             cls = rng.choice(modules)
             if insts and rng.random() < 0.4:     # a sibling of an existing instance (same class, other configuration)
                 cls = insts[rng.choice(sorted(insts))]
-            name = 'i%d' % (len(ex.steps) + 1)
             est = {k: v for k, v in kinds[cls].items() if v is not None and not is_cmd(v)}
             cfg = {}
             for _ in range(rng.choice([0, 0, 1, 1, 2])):
@@ -931,8 +1132,17 @@ def gen_program(rng, big):
                     c = gen_dtprops(rng, est[aname])
                 elif rr < 0.7:
                     c = {'description': rng.choice(DESCS)}
-                elif rr < 0.85:
+                elif rr < 0.8:
                     c = {'readonly': rng.random() < 0.5}
+                elif rr < 0.9 and est[aname] in ('float', 'int', 'string', 'bool'):
+                    # a constant parameter (checked against the datatype as configured, turns the parameter readonly),
+                    # before or after datatype properties of the same Param
+                    c = gen_dtprops(rng, est[aname]) if rng.random() < 0.5 else {}
+                    c.pop('nosuch', None)
+                    if rng.random() < 0.5:
+                        c = dict({'constant': gen_bare(rng, est[aname])}, **c)
+                    else:
+                        c['constant'] = gen_bare(rng, est[aname])
                 else:
                     c = {rng.choice(['value', 'default']): gen_bare(rng, est[aname])}
                 if c:
@@ -947,15 +1157,53 @@ def gen_program(rng, big):
                 v = gen_mvalue(rng, mkinds[cls][pn])
                 cfg[pn] = {'value': v} if rng.random() < 0.3 else v
             op = {'op': 'inst', 'name': name, 'cls': cls, 'cfg': cfg}
+            if sections and est and rng.random() < 0.3:
+                # a Param object bound to a name once in the configuration file and used for several modules
+                sec = rng.choice(sorted(sections))
+                keys = sorted(sections[sec][1])
+                if keys:
+                    key = rng.choice(keys)
+                    same = [a for a in sorted(est) if est[a] == sections[sec][1][key]]
+                    # a Param carrying a value (value / default / constant) goes to a parameter of the kind it was written for
+                    # (the model does not convert values: 1 for a float configured as `True`)
+                    cands = same if key in sections[sec][2] else (same or sorted(est))
+                    aname = key if key in cands and rng.random() < 0.7 else rng.choice(cands) if cands else None
+                    if aname is not None:
+                        cfg.pop(aname, None)
+                        op['share'] = {aname: [sec, key]}
+            pkeys = {a: est[a] for a in cfg if a in est and isinstance(cfg[a], dict)}
+            pkeys.update({a: sections[sk[0]][1][sk[1]] for a, sk in (op.get('share') or {}).items()})
+            if pkeys and rng.random() < 0.3:
+                # Group(...) arguments: the named parameters of THIS module get the property `group`
+                members = rng.sample(sorted(pkeys), min(len(pkeys), rng.choice([1, 1, 2])))
+                if op.get('share') and rng.random() < 0.6:
+                    members = sorted(set(members) | set(op['share']))
+                op['groups'] = {rng.choice(['grp', 'g1']): members}
+            op0 = op
+            if rng.random() < 0.35:
+                # as the server does it: the section is loaded with the configuration, the module is created from it afterwards
+                ops.append(dict(op, op='load'))
+                ex.apply(ops[-1])
+                op = {'op': 'inst', 'name': name, 'cls': cls, 'from': name}
             ops.append(op)
             if ex.apply(op)['outcome'] == 'ok':
                 insts[name] = cls
+            if 'cfg:' + name in ex.steps[-1]['after']:
+                valued = {a for a, c in cfg.items() if isinstance(c, dict) and {'value', 'default', 'constant'} & set(c)}
+                valued |= {a for a, sk in (op0.get('share') or {}).items() if sk[1] in sections[sk[0]][2]}
+                sections[name] = (cls, pkeys, valued)
         else:
             iname = rng.choice(sorted(insts))
             est = {k: v for k, v in kinds[insts[iname]].items() if v is not None and not is_cmd(v)}
             if not est:
                 continue
             par = rng.choice(sorted(est))
+            if est.get('controlled_by') == 'enum' and rng.random() < 0.5:
+                # an input is registered with this module (HasControlledBy.register_input, called by the controller's initModule)
+                op = {'op': 'mutate', 'inst': iname, 'par': 'controlled_by', 'kind': 'enum', 'member': rng.choice(['m1', 'm2', 'x'])}
+                ops.append(op)
+                ex.apply(op)
+                continue
             try:       # the member datatype objects of this parameter of this instance, as they are now
                 members = dt_paths(ex.insts[iname].accessibles[par].datatype)[1:]
             except Exception:
@@ -1026,17 +1274,40 @@ def wire_decl(decl):
     return {'k': k}
 
 
-def wire_op(op, outcome, mro):
+def wire_entries(op):
+    """the entries of a module section as they are written in the configuration: a Param(...) of its own, or the Param object
+    of another section (in the order load_section puts them into the Mod dict)"""
+    cfg = dict(op.get('cfg') or {})
+    out = [['description', {'new': [['value', jtext(canon(cfg.pop('description', 'module')))]]}]]
+    # a module property is configured as `name = value` or `name = {'value': value}` (modulebase.py:372-384; Mod() wraps a
+    # plain value into Param(value))
+    # (`Param(value=..., **kwds)` is a dict with the item `value` LAST, config.py:52-56)
+    out += [[a, {'new': wire_props(dict({k: v for k, v in c.items() if k != 'value'}, **{k: v for k, v in c.items() if k == 'value'}))
+                 if isinstance(c, dict) else [['value', jtext(canon(c))]]}] for a, c in cfg.items() if c is not None]
+    shared = op.get('share') or {}
+    out = [e for e in out if e[0] not in shared]
+    return out + [[a, {'shared': list(sk)}] for a, sk in shared.items()]
+
+
+def wire_groups(op):
+    """the Group(...) arguments of a module section: [[group name (as property value), [keys]]]"""
+    return [[jtext(g), list(members)] for g, members in (op.get('groups') or {}).items()]
+
+
+def wire_op(op, outcome, mro, loaded=True):
     ok = outcome == 'ok'
     if op['op'] == 'class':
         return {'op': 'class', 'ok': ok, 'name': op['name'], 'mro': mro or [op['name']], 'module': not op.get('mixin'),
-                'decls': [[a, wire_decl(d)] for a, d in op['decls']]}
+                'bases': list(op['bases']), 'decls': [[a, wire_decl(d)] for a, d in op['decls']]}
+    if op['op'] == 'load':
+        return {'op': 'load', 'ok': ok, 'name': op['name'], 'entries': wire_entries(op), 'groups': wire_groups(op)}
     if op['op'] == 'inst':
-        # a module property is configured as `name = value` or `name = {'value': value}` (modulebase.py:372-384)
-        cfg = [[a, wire_props(c) if isinstance(c, dict) else [['value', jtext(canon(c))]]] for a, c in op['cfg'].items() if c is not None]
-        if 'description' not in op['cfg']:
-            cfg.append(['description', [['value', jtext('module')]]])       # what run_op fills in
-        return {'op': 'inst', 'ok': ok, 'name': op['name'], 'cls': op['cls'], 'cfg': cfg}
+        # created from a section of the loaded configuration; without `from` the section is loaded by this operation
+        # (also when the creation fails)
+        if op.get('from') is not None:
+            return {'op': 'inst', 'ok': ok, 'name': op['name'], 'cls': op['cls'], 'section': op['from'], 'load': None}
+        return {'op': 'inst', 'ok': ok, 'name': op['name'], 'cls': op['cls'], 'section': op['name'],
+                'load': wire_entries(op) if loaded else None, 'groups': wire_groups(op)}
     if op['kind'] == 'write':      # a write changes the value only: not an operation of the model
         return {'op': 'setprop', 'ok': False, 'inst': op['inst'], 'par': op['par'], 'key': 'value', 'val': jtext(canon(op['val']))}
     if op['kind'] == 'setprop':
@@ -1055,9 +1326,10 @@ def prelude_ops():
         return _prelude
     import frappy.modules as M
     from frappy.params import Accessible, Parameter
-    known = {M.Module: 'Module', M.Readable: 'Readable', M.Writable: 'Writable', M.Drivable: 'Drivable'}
+    from frappy.modulebase import Feature
+    known = {M.Module: 'Module', M.Readable: 'Readable', M.Writable: 'Writable', M.Drivable: 'Drivable', Feature: 'Feature'}
     from frappy.properties import Property
-    items = [(n, c, n in ROOTS) for n, c in builtin_owners().items()]
+    items = [(n, c, n in HA_BUILTINS) for n, c in builtin_owners().items()]
     for name, cls, module in items:
         decls = []
         for aname, aobj in cls.__dict__.items():
@@ -1080,7 +1352,8 @@ def prelude_ops():
                 decls.append([aname, {'k': 'cmd', 'desc': None if desc is None else jtext(desc), 'arg': obj_tree(arg),
                                       'props': wire_props(own)}])
         mro = [known[c] for c in cls.__mro__ if c in known] if module else [name]
-        _prelude.append({'op': 'class', 'ok': True, 'name': name, 'mro': mro, 'module': module, 'decls': decls})
+        _prelude.append({'op': 'class', 'ok': True, 'name': name, 'mro': mro, 'module': module, 'decls': decls,
+                         'bases': [known[b] for b in cls.__bases__ if b in known]})
     return _prelude
 
 
@@ -1088,12 +1361,31 @@ def comparable(dumps):
     """the part of the implementation's dumps the model has to predict"""
     out = {}
     for owner, d in dumps.items():
+        if owner.startswith('cfg:'):
+            continue
         if 'acc' not in d:
             out[owner] = d
             continue
         out[owner] = [[a, {'cmd': x['cmd'], 'props': x['props'], 'datainfo': x['datainfo'], 'export': x['export']}]
                       for a, x in d['acc']]
     return out
+
+
+def comparable_s(dumps):
+    """the part around classes and instances the model has to predict: what every loaded module section shows (a plain value
+    like a Param with the item `value`), the module properties set from the class chain, the control behaviour"""
+    cfgs, auto, ctrl = {}, {}, {}
+    for owner, d in dumps.items():
+        if owner.startswith('cfg:') and 'cfg' in d:
+            cfgs[owner] = [[k, v if isinstance(v, list) else [['value', v]]] for k, v in d['cfg'] if k != 'cls']
+        elif owner.startswith('inst:') and 'mvals' in d:
+            mv = dict(d['mvals'])
+            auto[owner] = {k: json.loads(mv[k]) for k in ('features', 'interface_classes') if mv.get(k) is not None}
+            c = d.get('ctrl')
+            if c is not None:
+                ctrl[owner] = {'inputs': c['inputs'][1] if c['inputs'][0] == 'ok' else c['inputs'][0],
+                               'probes': [[m, what, calls] for m, what, _, calls in c.get('probes') or []]}
+    return cfgs, auto, ctrl
 
 
 def comparable_m(dumps):
@@ -1127,16 +1419,20 @@ def val_pairs(dumps, acc, wacc=None):
 # one case = one program
 # ----------------------------------------------------------------------------------------
 def add_echoes(rng, program, ex):
-    """append, for some instances, the creation of another instance of the same class with the same configuration"""
+    """append, for some instances, the creation of another instance of the same class with the same configuration: from
+    a section loaded anew with the same content, or from the SAME loaded section (what a restart of the server does)"""
     made = [st for st in ex.steps if st['op']['op'] == 'inst' and st['outcome'] == 'ok' and 'echo_of' not in st['op']]
     for st in rng.sample(made, min(2, len(made))):
         op = dict(st['op'], name=st['op']['name'] + 'e', echo_of=st['op']['name'])
+        if 'from' not in op and rng.random() < 0.5:
+            op = {'op': 'inst', 'name': op['name'], 'cls': op['cls'], 'from': st['op']['name'], 'echo_of': st['op']['name']}
         program['ops'].append(op)
         ex.apply(op)
 
 
 def reorder(rng, program):
-    """the same classes in another order that respects inheritance, then the same instances (no mutations)"""
+    """the same classes in another order that respects inheritance, then the same configuration loaded as a whole, then the
+    same instances created from it in another order (no mutations)"""
     classes = [op for op in program['ops'] if op['op'] == 'class']
     names = {op['name'] for op in classes}
     done, order, pending = set(), [], list(classes)
@@ -1149,18 +1445,51 @@ def reorder(rng, program):
         pending.remove(op)
         order.append(op)
         done.add(op['name'])
-    insts = [op for op in program['ops'] if op['op'] == 'inst' and 'echo_of' not in op]
+    loads, insts = [], []
+    for op in program['ops']:
+        if op['op'] == 'load':
+            loads.append(op)
+        elif op['op'] == 'inst' and 'echo_of' not in op:
+            if 'from' in op:
+                insts.append(op)
+            else:
+                loads.append(dict(op, op='load'))
+                insts.append({'op': 'inst', 'name': op['name'], 'cls': op['cls'], 'from': op['name']})
     rng.shuffle(insts)
-    return {'ops': order + insts}
+    return {'ops': order + loads + insts}
 
 
 def at_creation(steps):
     """owner -> text of its dump right after the operation that created it"""
     out = {}
     for st in steps:
-        if st['outcome'] == 'ok' and st['op']['op'] in ('class', 'inst') and st['target'] in st['after']:
+        if st['outcome'] == 'ok' and st['op']['op'] in ('class', 'inst', 'load') and st['target'] in st['after']:
             out[st['target']] = jtext(st['after'][st['target']])
+        sec = 'cfg:' + str(st['op'].get('name'))
+        if st['op']['op'] == 'inst' and 'from' not in st['op'] and sec in st['after']:
+            out[sec] = jtext(st['after'][sec])       # the section loaded with this operation, after the module was created from it
     return out
+
+
+def secop_base_classes():
+    from frappy.modulebase import SECoP_BASE_CLASSES
+    return list(SECoP_BASE_CLASSES)
+
+
+def wire_step(st):
+    op = st['op']
+    w = wire_op(op, st['outcome'], st.get('mro'), loaded='cfg:' + op.get('name', '') in st['after'])
+    if st.get('registered'):       # the real HasControlledBy.register_input on the module itself
+        w = {'op': 'register', 'ok': w['ok'], 'inst': op['inst'], 'member': op['member']}
+    return w
+
+
+def step_target(st):
+    """the owner an operation acts on.  A failed operation has no target (nothing at all may change) - except a failed
+    register_input, which enters the callback in the module's own table before it fails on the enum."""
+    if st['outcome'] == 'ok' or st.get('registered'):
+        return st['target']
+    return None
 
 
 def requests_for(program, init, steps, second=None):
@@ -1170,9 +1499,10 @@ def requests_for(program, init, steps, second=None):
         val_pairs(st['after'], pairs, wpairs)
     reqs = [
         {'p': 'C09', 'k': 'run', 'prelude': prelude_ops(),
-         'ops': [wire_op(st['op'], st['outcome'], st.get('mro')) for st in steps]},
+         'secop_base': secop_base_classes(),
+         'ops': [wire_step(st) for st in steps]},
         {'p': 'C09', 'k': 'judge_run', 'init': text_dumps(init['dumps']),
-         'steps': [{'target': st['target'] if st['outcome'] == 'ok' else None, 'after': text_dumps(st['after'])} for st in steps]},
+         'steps': [{'target': step_target(st), 'after': text_dumps(st['after'])} for st in steps]},
         {'p': 'C09', 'k': 'judge_val', 'pairs': sorted(pairs)},
         {'p': 'C09', 'k': 'judge_write', 'pairs': sorted(wpairs)},
     ]
@@ -1185,6 +1515,9 @@ def requests_for(program, init, steps, second=None):
             reqs.append({'p': 'C09', 'k': 'judge_later', 'first': first['inst:' + op['echo_of']], 'later': first['inst:' + op['name']]})
     if second is not None:
         reqs.append({'p': 'C09', 'k': 'judge_order', 'a': first, 'b': at_creation(second)})
+        # the second run (classes in another order, the configuration loaded as a whole, then the modules) is a run, too
+        reqs.append({'p': 'C09', 'k': 'judge_run', 'init': text_dumps(init['dumps']),
+                     'steps': [{'target': step_target(st), 'after': text_dumps(st['after'])} for st in second]})
     return reqs, laters
 
 
@@ -1227,6 +1560,14 @@ def evaluate(ctx, program, init, steps, second, answers, laters):
                 d = first_diff({o: x for o, x in mexp.items() if o in iexp}, iexp)
                 if d is not None:
                     d['owner'] += ' (exportProperties)'
+            if d is None:       # the loaded configuration, module properties from the class chain, control behaviour
+                cfgs, auto, ctrl = comparable_s(dumps)
+                for what, mm, ii in (('loaded configuration', m['cfgs'], cfgs), ('module properties from the class chain', m['auto'], auto),
+                                     ('control behaviour', m['ctrl'], ctrl)):
+                    d = first_diff(mm, ii)
+                    if d is not None:
+                        d['owner'] += ' (%s)' % what
+                        break
             if d is not None:
                 dis = {'case': program, 'model': d['model'], 'impl': d['impl'], 'at': where, 'owner': d['owner']}
                 break
@@ -1267,8 +1608,18 @@ def evaluate(ctx, program, init, steps, second, answers, laters):
         ans = next(it)
         if ans['bad']:
             viols.append({'sig': 'C09:order-dependent:' + '+'.join(sorted({o.split(':')[0] for o in ans['bad']})),
-                          'what': f'{ans["bad"]} look different when the same classes are defined in another order',
+                          'what': f'{ans["bad"]} look different when the same classes are defined and the same modules created in another order',
                           'case': program, 'detail': {'owners': ans['bad'], 'second_order': [st['op'].get('name') for st in second]}})
+        ans = next(it)
+        if ans['bad'] is not None:
+            i, owners = ans['bad']
+            op = second[i]['op']
+            okind = sorted({'builtin' if o.split(':')[1] in builtin_owners() else o.split(':')[0] for o in owners})
+            what = ('' if second[i]['outcome'] == 'ok' else 'failed-') + op['op']
+            viols.append({'sig': f'C09:isolation:{what}-changes-{"+".join(okind)}',
+                          'what': f'operation {i} of the run in the other order ({json.dumps(op)[:300]}) changed the dump of {owners}',
+                          'case': dict(program, second={'ops': [st['op'] for st in second]}),
+                          'detail': {'step': i, 'owners': owners, 'in': 'second'}})
     return dis, viols
 
 
@@ -1287,10 +1638,10 @@ def run_case(ctx, program, rng, with_order=True):
     return evaluate(ctx, program, init, steps, second, answers, laters)
 
 
-def shrink(ctx, program, sig, rng):
+def shrink(ctx, program, sig, rng, in_second=False):
     def fails(ops):
-        _, viols = run_case(ctx, {'ops': ops}, rng, with_order=sig.startswith('C09:order'))
-        return any(v['sig'] == sig for v in viols)
+        _, viols = run_case(ctx, {'ops': ops}, rng, with_order=in_second or sig.startswith('C09:order'))
+        return any(v['sig'] == sig and ((v.get('detail') or {}).get('in') == 'second') == in_second for v in viols)
     try:
         return {'ops': ddmin(program['ops'], fails, max_tests=120)}
     except Exception:
@@ -1314,7 +1665,7 @@ def run(ctx):
         for fn in sorted(os.listdir(cdir)):
             with open(os.path.join(cdir, fn)) as f:
                 cases.append(('corpus', json.load(f)['case']))
-    n = ctx.budget(300, 1500)
+    n = ctx.budget(220, 1100)
     shrunk = 0
     batch_reqs, batch_meta = [], []
 
@@ -1335,7 +1686,13 @@ def run(ctx):
             for v in viols:
                 if shrunk < 4 and not any(x['sig'] == v['sig'] for x in res.violations):
                     shrunk += 1
-                    v = dict(v, case=shrink(ctx, program, v['sig'], random.Random(1)), detail=dict(v.get('detail') or {}, original=program))
+                    in_second = (v.get('detail') or {}).get('in') == 'second'
+                    small = shrink(ctx, program, v['sig'], random.Random(1), in_second)
+                    if in_second:       # the replay needs the other order, too: the one the shrunk program fails with
+                        _, again = run_case(ctx, small, random.Random(1))
+                        again = [x for x in again if x['sig'] == v['sig'] and (x.get('detail') or {}).get('in') == 'second']
+                        small = again[0]['case'] if again else v['case']
+                    v = dict(v, case=small, detail=dict(v.get('detail') or {}, original=program))
                 res.violations.append(v)
         batch_reqs.clear()
         batch_meta.clear()
@@ -1365,6 +1722,8 @@ def run(ctx):
         for st in steps:
             res.count('op.%s.%s' % (st['op']['op'], st['outcome']))
             if st['op']['op'] == 'class':
+                if 'Feature' in (st.get('mro') or [])[1:2] or any(b in BUILTIN_MIXINS for b in st['op']['bases']):
+                    res.count('class.' + ('feature' if 'Feature' in (st.get('mro') or [])[1:2] else 'uses-control-mixin'))
                 for a, d in st['op']['decls']:
                     if a in MPROP_ROOT or a in MPROP_CUSTOM:
                         res.count('decl.module-property.' + d['k'])
@@ -1373,8 +1732,26 @@ def run(ctx):
                     if d['k'] == 'param' and d.get('dt'):
                         res.count('decl.datatype.' + str(d['dt']['t'] if isinstance(d['dt'], dict) else d['dt']))
             elif st['op']['op'] == 'mutate':
-                res.count('mutate.%s%s.%s' % (st['op']['kind'], '.member' if st['op'].get('path') else '', st['outcome'].split(':')[0]))
-            elif st['op']['op'] == 'inst' and any(k in MPROP_ROOT or k in MPROP_CUSTOM for k in st['op']['cfg']):
+                res.count('mutate.%s%s%s.%s' % (st['op']['kind'], '.member' if st['op'].get('path') else '',
+                                                '.register_input' if st.get('registered') else '', st['outcome'].split(':')[0]))
+            if st['op']['op'] in ('inst', 'load'):
+                o = st['op']
+                if o.get('from') is not None and o['op'] == 'inst':
+                    again = any(p['op']['op'] == 'inst' and p['outcome'] == 'ok' and p is not st and
+                                (p['op'].get('from') or p['op']['name']) == o['from'] for p in steps[:steps.index(st)])
+                    res.count('inst.from-loaded-section.' + ('again(restart)' if again else 'first'))
+                if o.get('share'):
+                    res.count('cfg.shares-a-param-object')
+                if o.get('groups'):
+                    res.count('cfg.groups' + ('.of-shared-param' if set(o.get('share') or ()) & {m for ms in o['groups'].values() for m in ms} else ''))
+                if any(isinstance(c, dict) and 'constant' in c for c in (o.get('cfg') or {}).values()):
+                    res.count('cfg.constant')
+                if o['op'] == 'inst' and st['outcome'] == 'ok':
+                    mv = dict(st['after'].get(st['target'], {}).get('mvals') or [])
+                    res.count('inst.features=%d' % len(json.loads(mv.get('features') or '[]')))
+                    if 'ctrl' in st['after'].get(st['target'], {}):
+                        res.count('inst.with-input-callbacks')
+            elif st['op']['op'] == 'inst' and any(k in MPROP_ROOT or k in MPROP_CUSTOM for k in st['op'].get('cfg') or ()):
                 res.count('inst.cfg.module-property.' + st['outcome'].split(':')[0])
         if any(len({x.rsplit(':', 1)[0] for x in g if '/prop/' in x}) > 1 and any(x.startswith('inst:') for x in g if '/prop/' in x)
                for st in steps for g in st['part']):
@@ -1411,10 +1788,15 @@ def replay(ctx, payload):
         print('judge:', v['sig'], '-', v['what'])
         d = v.get('detail') or {}
         if 'step' in d:
-            prev = init['dumps'] if d['step'] == 0 else steps[d['step'] - 1]['after']
+            run_ = steps
+            if d.get('in') == 'second':
+                run_ = impl_run(v['case']['second'])[1]
+                for i, st in enumerate(run_):
+                    print('  other order', i, json.dumps(st['op'])[:300], '->', st['outcome'])
+            prev = init['dumps'] if d['step'] == 0 else run_[d['step'] - 1]['after']
             for o in d['owners']:
                 print('  before', o, json.dumps(prev.get(o))[:1200])
-                print('  after ', o, json.dumps(steps[d['step']]['after'].get(o))[:1200])
+                print('  after ', o, json.dumps(run_[d['step']]['after'].get(o))[:1200])
     if not viols:
         print('judge: ok')
     return 1 if viols else 0
